@@ -66,6 +66,25 @@ def match(pat: ast.AST, node: ast.AST, b: dict[str, str]) -> bool:
         return b.setdefault(key, node.id) == node.id
     if type(pat) is not type(node):
         return False
+    if isinstance(pat, ast.Compare) and len(pat.ops) == 1 and isinstance(node, ast.Compare) and len(node.ops) == 1 and type(pat.ops[0]) in _FLIP:
+        # a comparison is the same predicate written either way round
+        trial = dict(b)
+        if _match_fields(pat, node, trial):
+            b.update(trial)
+            return True
+        if type(node.ops[0]) is _FLIP[type(pat.ops[0])]:
+            trial = dict(b)
+            if match(pat.left, node.comparators[0], trial) and match(pat.comparators[0], node.left, trial):
+                b.update(trial)
+                return True
+        return False
+    return _match_fields(pat, node, b)
+
+
+_FLIP = {ast.Lt: ast.Gt, ast.Gt: ast.Lt, ast.LtE: ast.GtE, ast.GtE: ast.LtE, ast.Eq: ast.Eq, ast.NotEq: ast.NotEq}
+
+
+def _match_fields(pat: ast.AST, node: ast.AST, b: dict[str, str]) -> bool:
     for f in pat._fields:
         if f in _SKIP:
             continue
@@ -227,7 +246,10 @@ def _probe(text: str, scope: Scope, bare: bool = False) -> ast.AST | None:
             free = True
     if isinstance(node, ast.Name) and not bare:
         free = False
-    cache[text] = node if free else None  # no temporaries: exact text already decided it
+    # a probe with a comparison is structural too: `a < b` also reads `b > a`
+    if not free and any(isinstance(n, ast.Compare) and len(n.ops) == 1 and type(n.ops[0]) in _FLIP for n in ast.walk(node)):
+        free = True
+    cache[text] = node if free else None  # else: exact text already decided it
     return cache[text]
 
 
